@@ -24,6 +24,8 @@ package main
 //        NV    - | k: the candidate carries a transaction that sets the state's next block version to k
 //              (the version required of a block is the one recorded in its PARENT's result, i.e. it
 //              changes for the grandchildren of the block that carries the transaction)
+//   sib DTS DH VER   the candidate of the last cand op again (same parent id, same commit vote bytes, same
+//            body) with timestamp+DTS, height+DH and Version() = VER: siblings that differ in one field only
 //   fin K    Finalize accepted block K (mod len; -1 = newest)
 //   finup    Finalize the ancestor-or-self of the newest accepted block whose parent is the last finalized block
 //
@@ -106,6 +108,7 @@ type c07Runner struct {
 	byID    map[string]int
 	fin     int
 	serial  int
+	last    *c07Built
 }
 
 var c07Current *c07Runner
@@ -178,6 +181,7 @@ func (r *c07Runner) start(nval int) string {
 	r.byID = map[string]int{string(g.ID()): 0}
 	r.fin = 0
 	r.serial = 0
+	r.last = nil
 	return fmt.Sprintf("ok %d", nval)
 }
 
@@ -389,6 +393,11 @@ func (r *c07Runner) Step(t []string, o *Oracle) string {
 			j = r.nodes[j].parent
 		}
 		return r.finalize(j, o)
+	case "sib":
+		if len(t) != 4 || r.nd == nil {
+			return "bad-op"
+		}
+		return r.sib(t[1:], o)
 	case "cand":
 		if len(t) != 10 || r.nd == nil {
 			return "bad-op"
@@ -546,12 +555,14 @@ func (r *c07Runner) cand(a []string, o *Oracle) string {
 	// template: a valid child of the block PREV names, else of the last finalized block
 	var hf *block.V2HeaderFormat
 	var bf *block.V2BodyFormat
+	tmplFrom := prevIdx
 	c07Quiet(func() {
 		if prevIdx >= 0 && r.nodes[prevIdx].alive {
 			hf, bf = r.template(prevIdx)
 		}
 		if hf == nil {
 			hf, bf = r.template(r.fin)
+			tmplFrom = r.fin
 		}
 	})
 	if hf == nil {
@@ -577,6 +588,69 @@ func (r *c07Runner) cand(a []string, o *Oracle) string {
 		b2.NormalTransactions = [][]byte{nvTx}
 		h2.NormalTransactionsHash = r.nd.SM.TransactionListFromSlice([]module.Transaction{tx}, module.BlockVersion2).Hash()
 	}
+	bt := &c07Built{h2: h2, b2: b2, ver: ver, pi: pi, tss: tss, cls: cls, vti: vti, nvK: nvK, nvTx: nvTx, med: med,
+		prevIdx: prevIdx, tmplFrom: tmplFrom}
+	r.last = bt
+	return r.judge(bt, o)
+}
+
+// c07Built is a candidate as built by a cand op; sib ops re-import it with another height,
+// timestamp or version but the SAME parent id, commit vote bytes and body.
+type c07Built struct {
+	h2   block.V2HeaderFormat
+	b2   block.V2BodyFormat
+	ver  int64
+	pi   int
+	tss  []int64
+	cls  string
+	vti  int
+	nvK  int32
+	nvTx []byte
+	med  int64
+	// the fields not under test (result, next validators, ...) come from a block proposed on
+	// node tmplFrom; when that is not the block PrevID names (it could not be proposed on at
+	// the time), they are taken again as soon as that becomes possible
+	prevIdx  int
+	tmplFrom int
+}
+
+// sib DTS DH VER: the candidate of the last cand op again, with timestamp+DTS, height+DH, version VER
+func (r *c07Runner) sib(a []string, o *Oracle) string {
+	if r.last == nil {
+		return "bad-op"
+	}
+	dts, ok1 := c07ParseI64(a[0])
+	dh, ok2 := c07ParseI64(a[1])
+	ver, ok3 := c07ParseI64(a[2])
+	if !ok1 || !ok2 || !ok3 {
+		return "bad-op"
+	}
+	bt := *r.last
+	bt.h2.Timestamp += dts
+	bt.h2.Height += dh
+	bt.ver = ver
+	o.Count("sib")
+	return r.judge(&bt, o)
+}
+
+func (r *c07Runner) judge(bt *c07Built, o *Oracle) string {
+	if bt.prevIdx >= 0 && bt.tmplFrom != bt.prevIdx && r.nodes[bt.prevIdx].alive {
+		var hf *block.V2HeaderFormat
+		var bf *block.V2BodyFormat
+		c07Quiet(func() { hf, bf = r.template(bt.prevIdx) })
+		if hf != nil {
+			nh, nb := *hf, *bf
+			nh.Height, nh.Timestamp, nh.PrevID, nh.VotesHash = bt.h2.Height, bt.h2.Timestamp, bt.h2.PrevID, bt.h2.VotesHash
+			nb.Votes = bt.b2.Votes
+			if bt.nvTx != nil {
+				nh.NormalTransactionsHash = bt.h2.NormalTransactionsHash
+				nb.NormalTransactions = bt.b2.NormalTransactions
+			}
+			bt.h2, bt.b2, bt.tmplFrom = nh, nb, bt.prevIdx
+		}
+	}
+	h2, b2, ver, pi, tss, cls, vti, nvK, nvTx, med := bt.h2, bt.b2, bt.ver, bt.pi, bt.tss, bt.cls, bt.vti, bt.nvK, bt.nvTx, bt.med
+	P := r.nodes[pi]
 	bd0, err := r.nd.BM.NewBlockDataFromReader(block.NewBlockReaderFromFormat(&h2, &b2))
 	if err != nil {
 		return "harness-error:decode:" + c07Short(err.Error())
@@ -733,7 +807,9 @@ func (r *c07Runner) cand(a []string, o *Oracle) string {
 	if accepted != nil {
 		id := string(accepted.ID())
 		if _, dup := r.byID[id]; dup {
-			return "harness-error:duplicate-id"
+			// the very same block again (sib 0 0): it is the node we already have
+			o.Count("accepted-again")
+			return out
 		}
 		r.byID[id] = len(r.nodes)
 		nn := &c07Node{blk: accepted, cand: accepted, parent: parIdx, alive: true, txnv: int(nvK)}
@@ -843,6 +919,25 @@ func c07Gen(g *Gen) {
 			}
 			txTip = nv
 		}
+		// siblings of the candidate just emitted: same parent id, same vote bytes, one or two
+		// fields moved (and the unmoved candidate once more), in either order relative to it
+		sibs := func(ver int) {
+			for n := g.Pick(1, 2, 2, 3, 4); n > 0; n-- {
+				dts, dh, v := 0, 0, ver
+				switch g.Intn(8) {
+				case 0, 1, 2:
+					dts = g.Pick(1, -1, 1, -1, 2, -5, -100, 1000)
+				case 3:
+					dh = g.Pick(1, -1, 2)
+				case 4:
+					v = g.Pick(1, 3, 2, 4)
+				case 5:
+					dts, dh = g.Pick(1, -1), g.Pick(1, -1)
+				default: // the same candidate again
+				}
+				g.Emit("sib %d %d %d", dts, dh, v)
+			}
+		}
 		probe := func(p int) {
 			// old / new / unrelated version on parent p, everything else valid
 			vs := "-"
@@ -877,8 +972,14 @@ func c07Gen(g *Gen) {
 					nv = g.Pick(3, 2, 3, 1)
 				}
 				valid(nv)
+				if g.Intn(10) < 4 {
+					sibs(verOf(svTip)) // svTip was advanced by valid(): approximate, any value is a legal op
+				}
 				if g.Intn(10) < 7 {
 					g.Emit("finup")
+				}
+				if g.Intn(10) < 2 {
+					sibs(2) // siblings of an already finalized block
 				}
 			case c < 32:
 				if g.Intn(3) > 0 {
@@ -890,6 +991,9 @@ func c07Gen(g *Gen) {
 				}
 			default:
 				c07Mutant(g, nval, acc, verOf(svTip))
+				if g.Intn(10) < 3 {
+					sibs(verOf(svTip)) // deviated first, corrected sibling afterwards, deviated again
+				}
 			}
 		}
 	}
